@@ -40,7 +40,7 @@ GROUPS = {
                 modpath="board::verif_c10", crate=CORE),
     "c01": dict(file="c01.rs", into="weechess-core/src/movegen.rs", scope=None, mod="verif_c01", pub=True,
                 modpath="movegen::verif_c01", crate=CORE),
-    "c17": dict(file="c17.rs", into="weechess-engine/src/searcher.rs", scope=None, mod="verif_c17", pub=False,
+    "c17": dict(file="c17.rs", into="weechess-engine/src/searcher.rs", scope=None, mod="verif_c17", pub=True,
                 modpath="searcher::verif_c17", crate=ENGINE),
     "c13": dict(file="c13.rs", into="weechess-engine/src/eval/mod.rs", scope=None, mod="verif_c13", pub=False,
                 modpath="eval::verif_c13", crate=ENGINE),
@@ -676,7 +676,10 @@ NOT_APPLICABLE = {
            "claimed under C02, C12 and C14",
     "C16": "book content is a concrete computation over 132 corpus files inside build.rs and 'never answers for another "
            "position' is true only up to 64-bit hash collisions: not a deterministic postcondition of lookup",
-    "C18": "local state of the stdin loop inside Client::exec; the ucinewgame arm cannot be called as a function",
+    "C18": "local state of the stdin loop inside Client::exec. The `ucinewgame` arm was extracted into a function (as done for the UCI move reader), "
+           "but any Kani harness that mentions the loop's `Search` value (two JoinHandles) makes the Kani 0.68 compiler panic (catch_unwind "
+           "intrinsic in the drop glue of std's thread Packet), so no obligation can be built; by reading, the arm does not clear "
+           "`previous_artifact` (DESIGN.md section 6, observations)",
     "C19": "2-safety over the whole multi-threaded search; the verifier abstracts exactly the nondeterminism sources "
            "(OS randomness, scheduling, RandomState) the property is about",
 }
